@@ -24,6 +24,7 @@ let () =
                 | "derive" -> M_derive.handle cmd args
                 | "server" -> M_server.handle cmd args
                 | "paths" -> M_paths.handle cmd args
+                | "coll" -> M_coll.handle cmd args
                 | _ -> failwith ("unknown module " ^ m))
              | _ -> failwith "bad line"
            with
